@@ -11,8 +11,8 @@
 (*                                                                          *)
 (* Pipeline: for each kind of musically meaningless input and each channel *)
 (* it can arrive on, the stages that have to interpret it -- it must fail  *)
-(* there.  A string flag given as the empty string is "no override": the   *)
-(* property does not say whether that is nonsense, either outcome is fine.  *)
+(* there.  A flag left at or set to its empty / zero default is "no        *)
+(* override" (the property's quantifier says so) and is not nonsense.       *)
 (***************************************************************************)
 EXTENDS Integers, Sequences, FiniteSets
 
@@ -43,7 +43,7 @@ MustFailAt(n, ch) ==
             [] n = "empty piece" -> {W, WE}
             [] OTHER -> {})
     [] ch = "flag" ->
-         (CASE n \in {"unknown dynamic", "tempo 0", "zero denominator"} -> WriteAll      \* (--meter 4/0: a meter is a fraction too)       \* (--bpm 0 is tempo 0 as a flag value, not "no flag")
+         (CASE n \in {"unknown dynamic", "zero denominator"} -> WriteAll      \* (--meter 4/0: a meter is a fraction too; --bpm 0 is the flag's default: no override)       \* (--bpm 0 is tempo 0 as a flag value, not "no flag")
             [] n \in {"key without scale", "malformed key"} -> WriteAll \cup {TCS, IKD, IKC}
             [] n = "unknown modifier" -> {WC}
             [] OTHER -> {})
@@ -52,5 +52,5 @@ MustFailAt(n, ch) ==
 Cells == {<<n, ch, st>> : n \in Nonsense, ch \in Channels, st \in {TP, TCD, TCS, W, WE, WP, WC, IKD, IKC}}
 LiveCells == {c \in Cells : c[3] \in MustFailAt(c[1], c[2])}
 Refused(r) == (r.nonsense # "" /\ r.cmd \in MustFailAt(r.nonsense, r.channel)) => r.exit > 0
-NoOverride(r) == r.nonsense = "no override" => r.exit >= 0     \* (an empty string flag: accepted as "not given" or refused, the protocol applies either way)
+NoOverride(r) == r.nonsense = "no override" => r.exit = 0      \* a flag at its zero / empty default is not nonsense: the run is the run without it
 =============================================================================
